@@ -46,3 +46,37 @@ def episodeTrace {I S : Type} (e : Env I S) (i : I) (as : List Nat) : String :=
   s!"masks={",".intercalate ms} done={String.join ds} adm={bit (admitted e i (e.reset i) as)}"
 
 end Rl4co.Proto
+
+namespace Rl4co.Proto
+
+abbrev Handlers := List (String × (List String → Option String))
+
+def answer (hs : Handlers) (line : String) : String :=
+  match (line.splitOn " ").filter (· ≠ "") with
+  | [] => "bad-op empty"
+  | op :: args =>
+    match hs.lookup op with
+    | none => s!"bad-op {op}"
+    | some h => match h args with
+      | none => s!"bad-args {op}"
+      | some r => r
+
+partial def loop (hs : Handlers) (hin hout : IO.FS.Stream) : IO Unit := do
+  let line ← hin.getLine
+  if line.isEmpty then return ()
+  let line := line.trimAscii.toString
+  if line == "flush" then
+    hout.putStrLn "flushed"; hout.flush
+  else
+    hout.putStrLn (answer hs line)
+  loop hs hin hout
+
+/-- Line-protocol main loop: one request per line on stdin, one reply line on stdout;
+the request `flush` flushes the output buffer and answers `flushed`. -/
+def runDriver (hs : Handlers) : IO Unit := do
+  let hin ← IO.getStdin
+  let hout ← IO.getStdout
+  loop hs hin hout
+  hout.flush
+
+end Rl4co.Proto
